@@ -32,7 +32,7 @@ ASSUMPTIONS = [
 
 TREE = {"a.txt": "A-file", "index.html": "ROOT-INDEX", "x.html": "X-HTML", "..name": "DOTDOT-NAME", ".hidden": "HIDDEN", "%2e%2e": "PERCENT",
         "é.txt": "UNICODE", "L" * 100 + "/" + "M" * 100 + "/" + "N" * 100 + ".txt": "LONG-PATH", "dir/index.html": "DIR-INDEX", "dir/b.txt": "B-file", "dir2/c.txt": "C-file", "static/inner.txt": "INNER",
-        "v1.2.html": "V12-PAGE", "dir/notes.txt.html": "NOTES-PAGE",
+        "v1.2.html": "V12-PAGE", "v1%2E0.txt": "PERCENT-UPPER-NAME", "%2E%2E/inside.txt": "INSIDE-PERCENT-UPPER-DIR", "dir/notes.txt.html": "NOTES-PAGE",
         "dir2.html": "DIR2-SIBLING-PAGE", "dir.html": "DIR-SIBLING-PAGE",  # a directory and a page of the same name: the directory URL redirects
         "cafe\u0301.txt": "DECOMPOSED-NAME", "caf\u00e9.txt": "COMPOSED-NAME", "\u6587\u4ef6.txt": "CJK-NAME", "\u00c7a.html": "C-CEDILLA-PAGE",
         "back\\slash.txt": "BACKSLASH-NAME", "dir\\b.html": "BACKSLASH-PAGE",  # a backslash is an ordinary character of a file name here
@@ -42,7 +42,7 @@ OUTSIDE = {"secret.txt": "SECRET-1", "static-secret.txt": "SECRET-2", "static2/s
 DIRS = {""} | {os.path.dirname(k) for k in TREE if "/" in k} | {"L" * 100}
 SEGS = ["", ".", "..", "a.txt", "dir", "dir2", "..name", "%2e%2e", "index.html", "x", "x.html", "é.txt", "static", "static2", "secret.txt", "nope",
         "index", "b.txt", ".hidden", "static-secret.txt", "sock", "v1.2", "notes.txt", "cafe\u0301.txt", "\u6587\u4ef6.txt", "\u00c7a",
-        "back\\slash.txt", "dir\\b.txt", "dir\\b", "empty.txt", "empty", "nb\u00a0sp.txt", "zw\u200dj.txt", "soft\u00adhy"]
+        "back\\slash.txt", "dir\\b.txt", "dir\\b", "empty.txt", "empty", "v1%2E0.txt", "%2E%2E", "a%2Etxt", "nb\u00a0sp.txt", "zw\u200dj.txt", "soft\u00adhy"]
 
 
 def make_special(served):
@@ -432,6 +432,15 @@ def run(ctx):
         ctx.extra["exhaustive_bound"] = f"segment alphabet of {len(SEGS)} to depth {depth_abs} (absolute directory), depth {depth_other} for relative/package forms"
         ctx.sample("path", {"iface": "asgi", "app": "Pages", "directory_form": "absolute", "path": "/dir/../..name"})
         ctx.sample("path", {"iface": "wsgi", "app": "Files", "directory_form": "package", "path": "/../static-secret.txt"})
+        # ---- names that are short in characters and too long in bytes for the file system (255 bytes per name, 4096 per path): not found, like any other
+        for (form, iface, kind), (abs_dir, app) in apps.items():
+            if form not in ("absolute", "absolute+handle_404"):
+                continue
+            for path in ("/" + "\u00e9" * 200, "/" + "\u6587" * 100 + ".txt", "/dir/" + "\u00e9" * 130, "/" + "/".join(["\u00e9" * 120] * 17), "/" + "x" * 251, "/" + "x" * 255, "/" + "y" * 256,
+                         "/" + "/".join(["z" * 200] * 21)):
+                judge(ctx, audit, iface, kind, form, abs_dir, app, path)
+                ctx.mon("names-too-long-in-bytes")
+                ctx.case(("too-long", form, iface, kind, len(path)))
         # ---- a few long / odd paths
         rng = ctx.rng("c07")
         for _ in range(ctx.scale(2000, 60_000)):
